@@ -123,6 +123,45 @@ def g_opmatch(repo):
     return g
 
 
+def g_expect(repo):
+    """C16: expectation matching (test command) for any number of definitions of a rule name"""
+    g = GroupBuild('expect', repo)
+    g.raw('prelude_common.rs')
+    g.text("""#[verifier::external_body]
+pub struct PathAwareValue { _p: u8 }
+#[verifier::external_body]
+pub struct IndexSetString { _p: u8 }
+use std::rc::Rc;
+""", 'opaque leaf types')
+    g.type(RULES + 'mod.rs', 'Status')
+    g.type(RULES + 'values.rs', 'CmpOperator')
+    for t in MODTYPES:
+        g.type(RULES + 'mod.rs', t, derive=None)
+    g.raw('spec_expect.rs')
+    g.fn('U-expect-v', CMD + 'reporters/test/mod.rs', 'get_status_result', spec='get_status_result.spec', props=['C08', 'C16'])
+    return g
+
+
+def g_conv(repo):
+    """C18: converters element-wise over any number of arguments (parse_int)"""
+    g = GroupBuild('conv', repo)
+    g.raw('prelude_common.rs')
+    PV = RULES + 'path_value.rs'
+    g.raw('prelude_conv_head.rs')
+    g.type(RULES + 'errors.rs', 'Error', derive=None, opaque_payloads='ExtError')
+    g.type(RULES + 'values.rs', 'RangeType', derive=None)
+    g.type(PV, 'Location', derive='Clone, Copy')
+    g.type(PV, 'Path', derive=None)
+    g.type(PV, 'MapValue', derive=None, extra_subst=[('indexmap::IndexMap<String, PathAwareValue>', 'IndexMapSV')])
+    g.type(PV, 'PathAwareValue', derive=None)
+    g.type(RULES + 'mod.rs', 'UnResolved', derive=None)
+    g.type(RULES + 'mod.rs', 'QueryResult', derive=None)
+    g.raw('prelude_conv.rs')
+    g.fn('U-parse-int-v', RULES + 'functions/converters.rs', 'parse_int', spec='parse_int.spec', props=['C08', 'C18'])
+    g.fn('U-parse-float-v', RULES + 'functions/converters.rs', 'parse_float', spec='parse_float.spec', props=['C08', 'C18'])
+    return g
+
+
 def g_eval_blocks(repo):
     """query blocks and type blocks: need the assumed ValueScope model (R12)"""
     g = GroupBuild('eval_blocks', repo)
@@ -466,4 +505,4 @@ def g_tables(repo):
     return g
 
 
-GROUPS = {'opmatch': g_opmatch, 'cnf': g_cnf, 'failed': g_failed, 'structured': g_structured, 'validate_data': g_validate_data, 'memo': g_memo, 'memo_block': g_memo_block, 'compare': g_compare, 'tables': g_tables, 'index2': g_index2, 'index': g_index, 'tracker': g_tracker, 'validate': g_validate, 'eval_blocks': g_eval_blocks, 'report': g_report, 'merge': g_merge, 'status': g_status, 'exit': g_exit, 'eval': g_eval, 'eval_disp': g_eval_disp}
+GROUPS = {'conv': g_conv, 'expect': g_expect, 'opmatch': g_opmatch, 'cnf': g_cnf, 'failed': g_failed, 'structured': g_structured, 'validate_data': g_validate_data, 'memo': g_memo, 'memo_block': g_memo_block, 'compare': g_compare, 'tables': g_tables, 'index2': g_index2, 'index': g_index, 'tracker': g_tracker, 'validate': g_validate, 'eval_blocks': g_eval_blocks, 'report': g_report, 'merge': g_merge, 'status': g_status, 'exit': g_exit, 'eval': g_eval, 'eval_disp': g_eval_disp}
